@@ -490,6 +490,19 @@ func runOperator0(kc *kernelCtx, b *Block) *Unit {
 				have[p.Name()] = true
 			}
 		}
+		// results of user functions: name_0(args), name_1(args) - `name` is a function-typed parameter of the operator
+		reRes := regexp.MustCompile(`\b([A-Za-z][A-Za-z0-9]*)_[0-9]\(`)
+		seenRes := map[string]bool{}
+		for _, c := range b.Clauses {
+			for _, m := range reRes.FindAllStringSubmatch(c.Text, -1) {
+				n := m[1]
+				if n == "ctx" || strings.HasPrefix(n, "add") || have[n] || seenRes[n] {
+					continue
+				}
+				seenRes[n] = true
+				u.Errs = append(u.Errs, fmt.Sprintf("operator contract %s does not bind: no function parameter named %s", b.Name, n))
+			}
+		}
 		re := regexp.MustCompile(`callfn\.([A-Za-z_][A-Za-z0-9_]*)`)
 		seen := map[string]bool{}
 		for _, c := range b.Clauses {
